@@ -1,7 +1,7 @@
 """Driver (fresh interpreter, emitted tree on sys.path): call the resource path helpers of the emitted
 sync client class and of the asyncio client class and return raw observations (no expectations here).
 
-payload: {module, services: [{name}], inventory: bool,
+payload: {module, services: [{name}], inventory: bool, sync_only: bool (template set without asyncio client),
           resources: [{service, helper, calls: [{id, kind: built|foreign, args: {var: value}, str}]}]}
 result : {inventory: {service: {sync: [attr..], async: [attr..]}},
           obs: [{id, helper, has_sync: [build?, parse?], has_async: [build?, parse?], same_fn: bool,
@@ -68,7 +68,7 @@ def main():
     inventory = {}
     for s in pl['services']:
         C = getattr(mod, s['name'] + 'Client')
-        A = getattr(mod, s['name'] + 'AsyncClient', None)
+        A = None if pl.get('sync_only') else getattr(mod, s['name'] + 'AsyncClient', None)
         classes[s['name']] = (C, A)
         if pl.get('inventory'):
             inventory[s['name']] = dict(sync=sorted(a for a in dir(C) if a.endswith('_path')),
